@@ -36,7 +36,7 @@ def inst(op, minbuf, nsc, tiers, db=3, index='size_t', align=64, elem=0, suffix=
     }
 
 
-INSTANCES = [inst(op, 1, 4, ['quick'], db=2) for op in range(5)] + \
+INSTANCES = [inst(op, 1, 9, ['quick']) for op in range(5)] + \
     [inst(op, 1, 27, ['thorough']) for op in range(6)] + \
     [inst(op, 2, 9, ['thorough']) for op in (0, 3)] + \
     [inst(op, 1, 9, ['thorough'], index='uint32_t', align=16, elem=1, suffix='_u32') for op in (0, 3)]
